@@ -17,17 +17,21 @@ namespace SleapVerif.Arch
 def run (c : Cfg) (fresh : Bool) (h w : Nat) : Res Forward :=
   (construct c).bind fun k => forward c k fresh h w
 
+/-- the same on the tree before c60aeeb (regression record) -/
+def runAsIs (c : Cfg) (fresh : Bool) (h w : Nat) : Res Forward :=
+  (constructAsIs c).bind fun k => forward c k fresh h w
+
 /-- the contracted output shapes: one per head, `(channels, h / stride, w / stride)` -/
 def contract (c : Cfg) (h w : Nat) : List (Nat × Nat × Nat) :=
   c.heads.map fun hd => (hd.ch, h / hd.os, w / hd.os)
 
 /-- per-head certificate (depends on the head's stride only, not on its channel count) -/
-def certOs (c : Cfg) (b : Built) (chans l0 : List Nat) (minOs os : Nat) : Bool :=
+def certOs (c : Cfg) (b : Built) (chans l0 : List Nat) (os : Nat) : Bool :=
   decide (0 < os) &&
   match findIdx (labels b.dec) os with
   | .err _ => false
   | .ok i =>
-    (headInFor c.rate b.xIn b.dec.length (labels b.dec) minOs os == .ok (chans.getD i 0))
+    (headInFor b os == .ok (chans.getD i 0))
       && l0.getD i 0 * os == c.realMaxStride
 
 def wellFormed (c : Cfg) : Bool :=
@@ -37,7 +41,7 @@ def wellFormed (c : Cfg) : Bool :=
     let S := c.realMaxStride
     b.enc.all Op.exactOk && encStride b.enc == S && !c.heads.isEmpty &&
     match chanStages c b, spatStages b true S with
-    | .ok chans, .ok l0 => c.heads.all fun h => certOs c b chans l0 c.minOs h.os
+    | .ok chans, .ok l0 => c.heads.all fun h => certOs c b chans l0 h.os
     | _, _ => false
 
 theorem build_heads (c : Cfg) (hs : List Head) : build { c with heads := hs } = build c := by
@@ -73,20 +77,12 @@ theorem wellFormed_upInterp (c : Cfg) (h : wellFormed { c with upInterp := false
         exact h2
 
 /-- Heads are independent: certificates for the one-head configurations (any channel count)
-    assemble into a certificate for the whole head list, as long as no head is below the
-    backbone's output stride. -/
+    assemble into a certificate for the whole head list. -/
 theorem wellFormed_of_single (c : Cfg) (hne : c.heads ≠ [])
-    (h : ∀ hd ∈ c.heads, c.bos ≤ hd.os ∧ ∃ ch, wellFormed { c with heads := [⟨hd.os, ch⟩] } = true) :
+    (h : ∀ hd ∈ c.heads, ∃ ch, wellFormed { c with heads := [⟨hd.os, ch⟩] } = true) :
     wellFormed c = true := by
-  have hmin : c.minOs = c.bos := by
-    unfold Cfg.minOs
-    exact minList_of_le _ _ (by
-      intro x hx
-      obtain ⟨hd, hhd, rfl⟩ := List.mem_map.mp hx
-      exact (h hd hhd).1)
   obtain ⟨hd0, hs0, hcons⟩ := List.exists_cons_of_ne_nil hne
-  have h0 := h hd0 (by simp [hcons])
-  obtain ⟨hle0, ch0, hw0⟩ := h0
+  obtain ⟨ch0, hw0⟩ := h hd0 (by simp [hcons])
   unfold wellFormed at hw0 ⊢
   rw [build_heads] at hw0
   cases hb : build c with
@@ -105,17 +101,11 @@ theorem wellFormed_of_single (c : Cfg) (hne : c.heads ≠ [])
       | ok l0 =>
         simp only [List.all_eq_true]
         intro hd hhd
-        obtain ⟨hle, ch, hw⟩ := h hd hhd
+        obtain ⟨ch, hw⟩ := h hd hhd
         unfold wellFormed at hw
         rw [build_heads, hb] at hw
         simp only [hcs, hrs, hc, hsp, Bool.and_eq_true, List.all_cons, List.all_nil, Bool.and_true] at hw
-        have hm1 : ({ c with heads := [⟨hd.os, ch⟩] } : Cfg).minOs = c.bos := by
-          simp only [Cfg.minOs, List.map_cons, List.map_nil, minList]
-          exact Nat.min_eq_right hle
-        have := hw.2
-        rw [hm1] at this
-        rw [hmin]
-        exact this
+        exact hw.2
 
 /-- **The certificate implies the contract** for every input `a·S × b·S` and either pooling
     state: construction succeeds, forward succeeds, one output per head with the head's channel
@@ -147,7 +137,7 @@ theorem run_of_wellFormed (c : Cfg) (hw : wellFormed c = true) (a b : Nat) (ha :
         let idx : Head → Nat := fun hd => (labels bb.dec).idxOf hd.os
         let g : Head → Nat := fun hd => chans.getD (idx hd) 0
         have hhead : ∀ hd ∈ c.heads, 0 < hd.os ∧ findIdx (labels bb.dec) hd.os = .ok (idx hd) ∧
-            headInFor c.rate bb.xIn bb.dec.length (labels bb.dec) c.minOs hd.os = .ok (g hd) ∧
+            headInFor bb hd.os = .ok (g hd) ∧
             l0.getD (idx hd) 0 * hd.os = c.realMaxStride := by
           intro hd hhd
           have := hw hd hhd
@@ -164,8 +154,8 @@ theorem run_of_wellFormed (c : Cfg) (hw : wellFormed c = true) (a b : Nat) (ha :
             subst hi
             simp only [hf, Bool.and_eq_true, beq_iff_eq] at this
             exact ⟨hpos, rfl, this.1, this.2⟩
-        have hinit : initHeads c bb c.heads = .ok (c.heads.map g) :=
-          initHeads_map c bb g c.heads (fun hd hhd => (hhead hd hhd).2.2.1)
+        have hinit : initHeads bb c.heads = .ok (c.heads.map g) :=
+          initHeads_map bb g c.heads (fun hd hhd => (hhead hd hhd).2.2.1)
         have hcon : construct c = .ok { built := bb, headIn := c.heads.map g } := by
           simp [construct, hbd, hinit]
         let o : Head → Nat × Nat × Nat := fun hd =>
@@ -301,7 +291,7 @@ theorem wellFormed_stemKernel (c : Cfg) (hf : c.fam ≠ .unet) (k : Nat) (hk : 2
     | ok dec =>
       simp only [Res.bind_ok, spatStages, chanStages, encRun, Op.chan, sconv_spat_valid _ _ _ _ _ hk hs,
         sconv_spat_valid _ _ _ _ _ e4 hs, List.all_cons, Op.exactOk, encStride, Op.stride]
-      simp [hk.1, hk.2, e4.2, hs, certOs, Cfg.minOs, Cfg.realMaxStride, labels]
+      simp [hk.1, hk.2, e4.2, hs, certOs, headInFor, Cfg.realMaxStride, labels]
   | swint =>
     simp only [Cfg.realMaxStride]
     cases decBuild false (swintEmbed c.variant) c.rate 3 (wrapUp c.fixWrap c.stem c.bos)
@@ -310,5 +300,5 @@ theorem wellFormed_stemKernel (c : Cfg) (hf : c.fam ≠ .unet) (k : Nat) (hk : 2
     | ok dec =>
       simp only [Res.bind_ok, spatStages, chanStages, encRun, Op.chan, sconv_spat_valid _ _ _ _ _ hk hs,
         sconv_spat_valid _ _ _ _ _ e4 hs, List.all_cons, Op.exactOk, encStride, Op.stride]
-      simp [hk.1, hk.2, e4.2, hs, certOs, Cfg.minOs, Cfg.realMaxStride, labels]
+      simp [hk.1, hk.2, e4.2, hs, certOs, headInFor, Cfg.realMaxStride, labels]
 end SleapVerif.Arch
